@@ -39,7 +39,11 @@ LOG_FORMATTER = logging.Formatter(u"%(asctime)s — [%(levelname)s] — %(name)-
 
 def _combine_latent_arrays(arr):
     """Helper function to concatenate latent arrays into a single variable in the `arr` Dataset."""
-    for var in list(arr.keys()):
+    def _latent_order(var):  # (base variable, latent index): the caller may list the coefficients in any key order
+        base_id, _, idx = str(var).partition(LATENT_STR_ID)
+        return base_id, int(idx) if idx.isdigit() else -1
+
+    for var in sorted([v for v in arr.keys() if LATENT_STR_ID in str(v)], key=_latent_order):
         if LATENT_STR_ID in var:  # extract latent variables from surrogate data
             base_id = str(var).split(LATENT_STR_ID)[0]
             arr[base_id] = arr[var][..., np.newaxis] if arr.get(base_id) is None else (
